@@ -204,14 +204,16 @@ func renderPreformatted(w io.Writer, node *html.Node) {
 			}
 			// <template> contributes its children only (unless v-keep is set)
 			bare := c.Data == "template" && !helpers.HasAttr(c, "v-keep")
-			if !bare {
-				_, _ = w.Write([]byte("<" + c.Data + renderAttrs(c.Attr) + ">"))
-			}
+			var body bytes.Buffer
 			if hasContent {
-				_, _ = w.Write([]byte(content))
+				body.WriteString(content)
 			} else {
-				renderPreformatted(w, c)
+				renderPreformatted(&body, c)
 			}
+			if !bare {
+				_, _ = w.Write([]byte("<" + c.Data + renderAttrs(c.Attr) + ">" + keepLeadingNewline(c.Data, body.String())))
+			}
+			_, _ = w.Write(body.Bytes())
 			if !bare {
 				_, _ = w.Write([]byte("</" + c.Data + ">"))
 			}
